@@ -145,7 +145,7 @@ def run(res, tier):
     res.rule("C09.6 after a move / rebuild cycle both trees start from zeroed expansions: the target/source rebuild rebuilds both trees unconditionally (rule C13.4 on TbfTreeTsm::rebuild)")
     import c13 as _c13
     _sub = tbf.Result("C13")
-    _c13.run(_sub, "quick")
+    tbf.donor_run(res, _c13, _sub)
     tbf.reexport(res, _sub, ("C13.4.tsm",), "C09.6.both-trees-rebuilt", min_instances=1)
     res.rule("C09.7 the OpenMP target/source executor applies per stage what the sequential target/source reference applies: same wrapper applications, level interval, guards, mappers and walk over the groups (rule C03.a on TbfOpenmpAlgorithmTsm)")
     import c03 as _c03, stages as _stages
